@@ -42,7 +42,7 @@ MAX_FNS = {'np.maximum', 'np.max', 'max', 'np.nanmax', 'np.fmax', 'np.amax'}
 
 def run(ctx: Ctx):
   m = model(ctx)
-  for r in (r1, r2, r3, r4, r5, r6, r7, r10, r11, r12, r13, r14, r15, r17, r18, r19):
+  for r in (r1, r2, r3, r4, r5, r6, r7, r10, r11, r12, r13, r14, r15, r17, r18, r19, r20):
     ctx.guard(r, m)
   ctx.include('R-C01-8', 'merge leaves its operand intact and shares no'
               ' mutable state with it (R-C11-1, R-C11-2): a shard state that'
@@ -56,6 +56,9 @@ def run(ctx: Ctx):
               ' before they are counted, as the docstring promises (R-C07-17) — otherwise a count statistic'
               ' grows with the padding a batch happens to need', c07.r17, {}, min_instances=2)
 
+  ctx.include('R-C01-21', '"any number of independent accumulators ... merged in any grouping and order": a keyed accumulator merges'
+              ' over the OPERAND\'s keys (R-C11-10) — iterating the raw configuration instead (a bare metric name iterates as'
+              ' characters) makes merge a silent no-op, and the roll-up of shards differs from the single accumulator', c11.r10, m)
 
 def _c11_shared(sub, m):
   sub.guard(c11.r1, m)
@@ -1283,11 +1286,74 @@ def r19(ctx: Ctx, m):
   ctx.floor(rule, 1, n)
 
 
+def r20(ctx: Ctx, m):
+  rule = 'R-C01-20'
+  ctx.rule(rule, '"splitting the examples arbitrarily into batches ... same result": an accumulator whose state IS a'
+           ' collections.Counter of its inputs (new(inputs) -> cls(<field>=Counter(...))) counts the input ELEMENTS themselves,'
+           ' under Python hashing: every state new() returns is `collections.Counter(<inputs>)` (or a Counter filled by'
+           ' `.update(<inputs>)`), <inputs> being the parameter itself. A vectorised regrouping of the batch first (np.unique,'
+           ' sort + run lengths) equates what hashing keeps apart (every NaN of a batch, 0.0/-0.0 by representation, keys'
+           ' converted by tolist()) — but only WITHIN a batch, so the counts then depend on how the examples were batched')
+  n = 0
+  for ci in m.classes:
+    cfields = [st.target.id for st in ci.node.body if isinstance(st, ast.AnnAssign) and isinstance(st.target, ast.Name)
+               and 'collections.Counter' in unparse(st.annotation)]
+    new = ci.methods.get('new')
+    if not cfields or new is None:
+      continue
+    ps = new.params()[1:]
+    if len(ps) != 1:
+      continue
+    P = ps[0]
+
+    def raw(e):
+      while isinstance(e, ast.Call) and unparse(e.func) in ('iter', 'list', 'tuple') and len(e.args) == 1:
+        e = e.args[0]
+      return isinstance(e, ast.Name) and e.id == P
+
+    def counter_of_inputs(e, depth=0):
+      if isinstance(e, ast.Call) and unparse(e.func) in ('collections.Counter', 'Counter'):
+        return len(e.args) <= 1 and not e.keywords and all(raw(a) for a in e.args)
+      if isinstance(e, ast.Name) and depth == 0:
+        defs = [x.value for x in walk_no_nested(new.node) if isinstance(x, ast.Assign)
+                and any(isinstance(t, ast.Name) and t.id == e.id for t in x.targets)]
+        ups = [c for c in walk_no_nested(new.node) if isinstance(c, ast.Call) and isinstance(c.func, ast.Attribute)
+               and isinstance(c.func.value, ast.Name) and c.func.value.id == e.id]
+        return bool(defs) and all(counter_of_inputs(d, 1) for d in defs) and all(
+            c.func.attr == 'update' and len(c.args) == 1 and raw(c.args[0]) for c in ups)
+      return False
+    for r_ in walk_no_nested(new.node):
+      if not (isinstance(r_, ast.Return) and isinstance(r_.value, ast.Call)):
+        continue
+      for k in r_.value.keywords:
+        if k.arg in cfields:
+          n += 1
+          what = f'{ci.name}.new: the `{k.arg}` of a new state counts the input elements themselves'
+          if counter_of_inputs(k.value):
+            ctx.ok(rule, new, what, r_)
+          else:
+            ctx.fail(rule, new, what,
+                     f'`{unparse(r_)[:80]}` builds `{k.arg}` from `{unparse(k.value)[:50]}`, not from collections.Counter({P}): the'
+                     ' batch is regrouped by another notion of equality before it is counted (np.unique collapses the NaNs'
+                     ' of ONE batch into one key, hashing keeps every NaN apart) — the merged counts depend on the batching',
+                     node=r_)
+  ctx.floor(rule, 1, n)
+
+
 from mlmverif.selfcheck import B, OK  # noqa: E402
 
 _R = 'aggregates/rolling_stats.py'
 _C = 'aggregates/classification.py'
 VARIANTS = [
+    B('counter-of-a-flat-array-through-unique', _R,
+      "  def new(self, inputs: Iterable[_T]) -> Self:\n    return self.__class__(_counter=collections.Counter(inputs))",
+      "  def new(self, inputs: Iterable[_T]) -> Self:\n    if isinstance(inputs, np.ndarray) and inputs.ndim == 1:\n      keys, counts = np.unique(inputs, return_counts=True)\n      return self.__class__(_counter=collections.Counter(dict(zip(keys.tolist(), counts.tolist()))))\n    return self.__class__(_counter=collections.Counter(inputs))", 'R-C01-20'),
+    OK('counter-filled-by-update', _R,
+       "  def new(self, inputs: Iterable[_T]) -> Self:\n    return self.__class__(_counter=collections.Counter(inputs))",
+       "  def new(self, inputs: Iterable[_T]) -> Self:\n    counted = collections.Counter()\n    counted.update(iter(inputs))\n    return self.__class__(_counter=counted)"),
+    B('samplewise-merge-walks-the-raw-config', _C,
+      "    for key, value in other.state.items():\n      self._state[key].merge(value)",
+      "    for metric in self.metrics:\n      self._state[metric].merge(other.state[metric])", 'R-C01-21'),
     B('minmax-merge-takes-axis-zero-for-unset', _R,
       '    self._min = np.min((self._min, other.min), axis=self.axis)\n    self._max = np.max((self._max, other.max), axis=self.axis)',
       '    axis = 0 if self.axis else None\n    self._min = np.min((self._min, other.min), axis=axis)\n    self._max = np.max((self._max, other.max), axis=axis)', 'R-C01-19'),
